@@ -318,6 +318,21 @@ func runExcClient(c excClientCase) harness.Result {
 			return harness.Fail("rtu client: exception %+v does not carry unit=%d fc=%d code=%d", *e, c.Req.Unit, c.Req.FC, c.Code)
 		}
 	}
+	// another client gets the same exception (function, code) from a device with another unit id while this error is still held
+	// (a program that polls several devices and looks at the errors afterwards): the first error stays what it is
+	before := fmt.Sprintf("%+v|%s", o.Err, o.Err.Error())
+	r2 := c.Req
+	r2.Unit ^= 0x11
+	frame2 := spec.EncodeResponse(f, spec.Resp{FC: r2.FC, Unit: r2.Unit, Tx: r2.Tx, IsException: true, Code: c.Code})
+	o2 := cli.Run(cli.Scenario{Kind: c.Kind, Req: r2, Stream: frame2, Events: []xport.Event{{Kind: "data", N: len(frame2)}, {Kind: "ioerr"}}, ReadTimeoutMs: 300})
+	if after := fmt.Sprintf("%+v|%s", o.Err, o.Err.Error()); after != before {
+		return harness.Fail("%s client: the error returned for exception reply %x read %q; after another client received %x (error %v) it reads %q: errors of different calls share storage", c.Kind, frame, before, frame2, o2.Err, after)
+	}
+	var et *packet.ErrorResponseTCP
+	var er *packet.ErrorResponseRTU
+	if (errors.As(o.Err, &et) && et.UnitID != c.Req.Unit) || (errors.As(o.Err, &er) && er.UnitID != c.Req.Unit) {
+		return harness.Fail("%s client: after another client received the same exception from unit %d, the error held for unit %d reports another unit: %+v", c.Kind, r2.Unit, c.Req.Unit, o.Err)
+	}
 	return harness.Result{NonTrivial: true, Labels: []string{"exception-through-client", "kind:" + c.Kind, fmt.Sprintf("fc%d", c.Req.FC)}}
 }
 
